@@ -2,12 +2,14 @@ package main
 
 import (
 	"bytes"
-	"runtime"
-	"sync/atomic"
+	"capnproto.org/go/capnp/v3/encoding/text"
+	"capnproto.org/go/capnp/v3/pogs"
 	"errors"
+	"runtime"
 	"strconv"
 	"strings"
 	"sync"
+	"sync/atomic"
 
 	capnp "capnproto.org/go/capnp/v3"
 	"verifharness/lib"
@@ -645,6 +647,33 @@ func execNoPanic(t []string) string {
 		if root.Struct().IsValid() {
 			capnp.Canonicalize(root.Struct())
 		}
+	case "text":
+		// the root rendered as text under every struct type of the schema (what a generated String() does)
+		if root.Struct().IsValid() {
+			loadSchema()
+			for _, id := range structIDs {
+				msg.ResetReadLimit(T)
+				text.Marshal(id, root.Struct())
+			}
+		}
+		if root.List().IsValid() {
+			loadSchema()
+			for _, id := range structIDs {
+				msg.ResetReadLimit(T)
+				text.MarshalList(id, root.List())
+			}
+		}
+	case "extract":
+		if root.Struct().IsValid() {
+			var z airZ
+			pogs.Extract(&z, verifxZTypeID, root.Struct())
+			msg.ResetReadLimit(T)
+			var pb airPlaneBase
+			pogs.Extract(&pb, verifxPlaneBaseTypeID, root.Struct())
+			msg.ResetReadLimit(T)
+			var d airDefaults
+			pogs.Extract(&d, verifxDefaultsTypeID, root.Struct())
+		}
 	case "copy":
 		_, seg, err := capnp.NewMessage(capnp.SingleSegment(nil))
 		if err == nil {
@@ -749,6 +778,196 @@ func execEqual(t []string) string {
 	return "false"
 }
 
+// execDefaults: "read defaults <segs>": for every pointer field of the root struct, its kind (N null, S struct, L list,
+// C capability) and whether StructDefault / ListDefault hand out the field's own value (o) or the schema default (d).
+// Only a pointer that is not of the asked kind — null in particular — means "the default"; a present empty struct or
+// list is the field's own value.
+func execDefaults(segsHex string) string {
+	segs, ok := parseSegs(segsHex)
+	if !ok {
+		return "bad-op"
+	}
+	defOnce.Do(func() {
+		m, seg, _ := capnp.NewMessage(capnp.SingleSegment(nil))
+		st, _ := capnp.NewRootStruct(seg, capnp.ObjectSize{DataSize: 8, PointerCount: 1})
+		st.SetUint64(0, 42)
+		st.SetText(0, "def")
+		defStruct, _ = m.Marshal()
+		m2, seg2, _ := capnp.NewMessage(capnp.SingleSegment(nil))
+		l, _ := capnp.NewUInt16List(seg2, 3)
+		l.Set(0, 7)
+		m2.SetRoot(l.ToPtr())
+		defList, _ = m2.Marshal()
+	})
+	msg := &capnp.Message{Arena: capnp.MultiSegment(segs), TraverseLimit: 1 << 40}
+	root, err := msg.Root()
+	if err != nil || !root.Struct().IsValid() {
+		return "invalid"
+	}
+	rs := root.Struct()
+	var out []string
+	for i := 0; i < int(rs.Size().PointerCount) && i < 8; i++ {
+		p, err := rs.Ptr(uint16(i))
+		if err != nil {
+			return "invalid"
+		}
+		k := "C"
+		switch {
+		case !p.IsValid():
+			k = "N"
+		case p.Struct().IsValid():
+			k = "S"
+		case p.List().IsValid():
+			k = "L"
+		}
+		sd, err1 := p.StructDefault(defStruct)
+		ld, err2 := p.ListDefault(defList)
+		if err1 != nil || err2 != nil {
+			return "invalid"
+		}
+		s, l := "o", "o"
+		if sd.Message() != msg {
+			s = "d"
+			if sd.Uint64(0) != 42 {
+				s = "!wrong-default"
+			}
+		}
+		if ld.Message() != msg {
+			l = "d"
+			if ld.Len() != 3 {
+				l = "!wrong-default"
+			}
+		}
+		out = append(out, k+":"+s+":"+l)
+	}
+	return strings.Join(out, ",")
+}
+
+// execEqualCopy: "read equalcopy <segs> <mode>": a value equals its deep copy, in both argument orders, whatever the
+// destination held before and also when the destination is a larger (zero-extended) struct.  Mode 0: SetRoot into a new
+// message; 1: CopyFrom into a dirty larger struct; 2: SetStruct into a dirty larger composite-list element; 3: the
+// root is a list and each element, viewed as a struct, is copied into a dirty larger struct.
+func execEqualCopy(segsHex, modeStr string) string {
+	segs, ok := parseSegs(segsHex)
+	if !ok {
+		return "bad-op"
+	}
+	mode, _ := strconv.Atoi(modeStr)
+	m := &capnp.Message{Arena: capnp.MultiSegment(segs), TraverseLimit: 1 << 40}
+	for _, c := range sharedClients() {
+		m.AddCap(c.AddRef())
+	}
+	root, err := m.Root()
+	if err != nil {
+		return "invalid"
+	}
+	dst, dseg, err := capnp.NewMessage(capnp.MultiSegment(nil))
+	if err != nil {
+		return "builderr"
+	}
+	both := func(a, b capnp.Ptr, where string) string {
+		m.ResetReadLimit(1 << 40)
+		dst.ResetReadLimit(1 << 40)
+		e1, err1 := capnp.Equal(a, b)
+		e2, err2 := capnp.Equal(b, a)
+		if err1 != nil || err2 != nil {
+			return "invalid"
+		}
+		if !e1 || !e2 {
+			return "false " + where
+		}
+		return ""
+	}
+	dirty := func(sz capnp.ObjectSize, inList bool) (capnp.Struct, error) {
+		var st capnp.Struct
+		if inList {
+			cl, err := capnp.NewCompositeList(dseg, sz, 2)
+			if err != nil {
+				return st, err
+			}
+			if err := dst.SetRoot(cl.ToPtr()); err != nil {
+				return st, err
+			}
+			st = cl.Struct(1)
+		} else {
+			var err error
+			st, err = capnp.NewStruct(dseg, sz)
+			if err != nil {
+				return st, err
+			}
+		}
+		for k := 0; k < int(sz.DataSize); k++ {
+			st.SetUint8(capnp.DataOffset(k), 0xbb)
+		}
+		for i := 0; i < int(sz.PointerCount); i++ {
+			old, _ := capnp.NewStruct(dseg, capnp.ObjectSize{DataSize: 8})
+			old.SetUint64(0, 0x0123456789abcdef)
+			st.SetPtr(uint16(i), old.ToPtr())
+		}
+		return st, nil
+	}
+	grow := func(sz capnp.ObjectSize) capnp.ObjectSize {
+		words := (int(sz.DataSize) + 7) / 8
+		return capnp.ObjectSize{DataSize: capnp.Size(8 * (words + 1)), PointerCount: sz.PointerCount + 1}
+	}
+	switch {
+	case mode == 0 || (mode != 3 && !root.Struct().IsValid()) || (mode == 3 && !root.List().IsValid()):
+		if err := dst.SetRoot(root); err != nil {
+			return "copyerr"
+		}
+		r2, err := dst.Root()
+		if err != nil {
+			return "copyerr"
+		}
+		if s := both(root, r2, "setroot"); s != "" {
+			return s
+		}
+	case mode == 1 || mode == 2:
+		src := root.Struct()
+		if src.Size().DataSize > 8*1000 || src.Size().PointerCount > 1000 {
+			return "true"
+		}
+		st, err := dirty(grow(src.Size()), mode == 2)
+		if err != nil {
+			return "builderr"
+		}
+		if mode == 2 {
+			r, _ := dst.Root()
+			err = r.List().SetStruct(1, src)
+		} else {
+			err = st.CopyFrom(src)
+		}
+		if err != nil {
+			return "copyerr"
+		}
+		if s := both(root, st.ToPtr(), "copyfrom"); s != "" {
+			return s
+		}
+	default:
+		l := root.List()
+		for i := 0; i < l.Len() && i < 6; i++ {
+			e := l.Struct(i)
+			if !e.IsValid() || e.Size().DataSize > 8*1000 || e.Size().PointerCount > 1000 {
+				continue
+			}
+			st, err := dirty(grow(e.Size()), false)
+			if err != nil {
+				return "builderr"
+			}
+			if err := st.CopyFrom(e); err != nil {
+				return "copyerr"
+			}
+			if s := both(e.ToPtr(), st.ToPtr(), "element "+strconv.Itoa(i)); s != "" {
+				return s
+			}
+		}
+	}
+	return "true"
+}
+
+var defOnce sync.Once
+var defStruct, defList []byte
+
 // execEqualIn: Equal on two pointers of ONE message (pointer fields 0 and 1 of the root struct).
 // "read equalin <segs>": the capability table holds the eight shared clients; the result is Equal's verdict, which must
 // be the same in both argument orders (else "asym").  "read equalsym <segs> <n> <nilmask>": a table of n entries, nil
@@ -821,6 +1040,12 @@ func execRead(t []string) string {
 	}
 	if len(t) == 4 && t[0] == "equal" {
 		return execEqual(t)
+	}
+	if len(t) == 3 && t[0] == "equalcopy" {
+		return execEqualCopy(t[1], t[2])
+	}
+	if len(t) == 2 && t[0] == "defaults" {
+		return execDefaults(t[1])
 	}
 	if len(t) == 2 && t[0] == "equalin" {
 		return execEqualIn(t[1], 8, 0, true)
